@@ -161,6 +161,15 @@ class EffectGraph:
                 if isinstance(n, ast.FunctionDef) and n.name == f.id and n is not fi.fn:
                     return [self.fns[id(n)]], 0
             r = repo.resolve(fi.mi, f.id)
+            if r is None:
+                # a name imported inside the function (`from .qbytes_ops import helper` in a dispatch method, to break an import cycle)
+                for n in _own_nodes(fi.fn):
+                    if isinstance(n, ast.ImportFrom):
+                        for al in n.names:
+                            if (al.asname or al.name) == f.id:
+                                tm = repo.modules.get(repo._abs_module(fi.mi, n.module, n.level))
+                                if tm is not None:
+                                    r = repo.resolve(tm, al.name)
             if r is not None:
                 if isinstance(r[1], ast.FunctionDef):
                     return [self.fns[id(r[1])]], 0
